@@ -85,6 +85,15 @@ def m_len(ip, args, kw, st, node):
         return [(Sym(n, "int"), st)]
     if isinstance(v, Sym) and is_ref_ty(v.ty):
         return ip.call_method(v, v.ty[1], "__len__", [], {}, st, node)
+    from .expr import ImgSet
+    if isinstance(v, ImgSet):
+        # number of distinct values: 0 iff empty, 1 iff non-empty and all equal, >= 2 otherwise
+        sq = v.seq
+        n = fresh("ndistinct", I)
+        a, b = z3.Int("a!ds"), z3.Int("b!ds")
+        alleq = z3.ForAll([a, b], z3.Implies(z3.And(0 <= a, a < sq.n, 0 <= b, b < sq.n), z3.Select(sq.arr, a) == z3.Select(sq.arr, b)))
+        st.assume(n >= 0, n <= sq.n, (n == 0) == (sq.n == 0), (n == 1) == z3.And(sq.n >= 1, alleq))
+        return [(Sym(n, "int"), st)]
     raise OutOfSubset(f"len of {v!r}", node)
 
 
@@ -136,7 +145,10 @@ def _minmax(ip, args, kw, st, node, is_max):
     el = lambda idx: (to_real(z3.Select(star.arr, idx)) if kind == "real" and star.ety == "int" else z3.Select(star.arr, idx))
     ge = (lambda a, b: a >= b) if is_max else (lambda a, b: a <= b)
     st.assume(*[ge(m, t) for t in ts])
-    st.assume(z3.ForAll([j], z3.Implies(z3.And(j >= 0, j < star.n), ge(m, el(j))), patterns=[z3.Select(star.arr, j)]))
+    try:
+        st.assume(z3.ForAll([j], z3.Implies(z3.And(j >= 0, j < star.n), ge(m, el(j))), patterns=[z3.Select(star.arr, j)]))
+    except z3.Z3Exception:
+        st.assume(z3.ForAll([j], z3.Implies(z3.And(j >= 0, j < star.n), ge(m, el(j)))))
     w = fresh("jw", I)
     st.assume(z3.Or(*[m == t for t in ts], z3.And(w >= 0, w < star.n, m == el(w))))
     if not ts:
@@ -305,6 +317,8 @@ def m_hasattr(ip, args, kw, st, node):
     v, name = args
     if isinstance(v, Sym) and is_ref_ty(v.ty) and isinstance(name, str):
         cls = v.ty[1]
+        if ("$has_" + name) in SHAPES[cls].fields:
+            return [(ip.read_field(v.t, cls, "$has_" + name, st), st)]
         return [(name in SHAPES[cls].fields or ip.src.find_method(cls, name) is not None, st)]
     raise OutOfSubset("hasattr", node)
 
@@ -510,3 +524,169 @@ def m_sched_keys(ip, args, kw, st, node):
 @model("_Schedule.values")
 def m_sched_values(ip, args, kw, st, node):
     return [(IterV("items", [_sched_map(ip, args[0], st), "values"]), st)]
+
+
+@model("np.searchsorted")
+def m_searchsorted(ip, args, kw, st, node):
+    """numpy axiom (side='right' on a sorted 1-d sequence): the insertion index after all elements <= v."""
+    a, v = args[0], args[1]
+    side = kw.get("side", "left")
+    sv = ip.as_seq(a, st)
+    j, j2 = z3.Int("j!ss1"), z3.Int("j!ss2")
+    # precondition of the axiom: the sequence is sorted (obligation)
+    ip.oblige(st, f"np.searchsorted:sorted@{ip.ntag(node)}",
+              z3.ForAll([j, j2], z3.Implies(z3.And(0 <= j, j <= j2, j2 < sv.n), z3.Select(sv.arr, j) <= z3.Select(sv.arr, j2))), "safety")
+    vt, k = znum(v)
+    i = fresh("ss", I)
+    if side == "right":
+        st.assume(0 <= i, i <= sv.n,
+                  z3.ForAll([j], z3.Implies(z3.And(0 <= j, j < i), z3.Select(sv.arr, j) <= vt), patterns=[z3.Select(sv.arr, j)]),
+                  z3.ForAll([j], z3.Implies(z3.And(i <= j, j < sv.n), z3.Select(sv.arr, j) > vt), patterns=[z3.Select(sv.arr, j)]))
+    else:
+        st.assume(0 <= i, i <= sv.n,
+                  z3.ForAll([j], z3.Implies(z3.And(0 <= j, j < i), z3.Select(sv.arr, j) < vt), patterns=[z3.Select(sv.arr, j)]),
+                  z3.ForAll([j], z3.Implies(z3.And(i <= j, j < sv.n), z3.Select(sv.arr, j) >= vt), patterns=[z3.Select(sv.arr, j)]))
+    return [(Sym(i, "int"), st)]
+
+
+# --------------------------------------------------------------------------
+# dict-like pseudo classes
+# --------------------------------------------------------------------------
+@model("_BasisMap.__getitem__")
+def m_bm_getitem(ip, args, kw, st, node):
+    ml = ip.read_field(args[0].t, "_BasisMap", "_d", st)
+    return ip.index(ml, args[1], st, node)
+
+
+@model("_BasisMap.__contains__")
+def m_bm_contains(ip, selfv, x, st):
+    ml = ip.read_field(selfv.t, "_BasisMap", "_d", st)
+    return z3.Select(ml.dom(st.heap), ip.coerce(x, "qid"))
+
+
+from .core import PStr as _PStr
+DECL_DOM = z3.Function("DECL_DOM", Ref, z3.ArraySort(_PStr, B))
+DECL_MAP = z3.Function("DECL_MAP", Ref, z3.ArraySort(_PStr, Ref))
+
+
+@model("_DeclMap.__contains__")
+def m_dm_contains(ip, selfv, x, st):
+    return z3.Select(DECL_DOM(selfv.t), ip.coerce(x, "str"))
+
+
+@model("_DeclMap.__getitem__")
+def m_dm_getitem(ip, args, kw, st, node):
+    kt = ip.coerce(args[1], "str")
+    out = []
+    for side, s2 in ip.branch(z3.Select(DECL_DOM(args[0].t), kt), st, "key"):
+        out.append((Sym(z3.Select(DECL_MAP(args[0].t), kt), ("ref", "Channel")), s2) if side else (Exc("KeyError"), s2))
+    return out
+
+
+@model("get_args")
+def m_get_args(ip, args, kw, st, node):
+    v = args[0]
+    if isinstance(v, tuple):
+        return [(v, st)]
+    raise OutOfSubset("get_args of non-literal", node)
+
+
+# --------------------------------------------------------------------------
+# numpy / pulser.math on sample arrays (A-NUMPY: each model is an assumed contract of the dependency)
+# --------------------------------------------------------------------------
+ROUND6 = z3.Function("ROUND6", R, R)      # np.round(x, 6)
+AVG = z3.Function("AVG", z3.ArraySort(I, R), I, R)
+SUM = z3.Function("SUM", z3.ArraySort(I, R), I, R)
+
+
+def _elementwise(ip, v, st, f, ety="real"):
+    sv = ip.as_seq(v, st)
+    j = z3.Int("j!ew")
+    return SeqV(sv.n, z3.Lambda([j], f(z3.Select(sv.arr, j))), ety)
+
+
+@model("np.any")
+def m_np_any(ip, args, kw, st, node):
+    v = args[0]
+    if isinstance(v, (SeqV, ListLoc)):
+        sv = ip.as_seq(v, st)
+        j = z3.Int("j!any")
+        el = z3.Select(sv.arr, j)
+        cond = el if sv.ety == "bool" else el != 0
+        return [(Sym(z3.Exists([j], z3.And(0 <= j, j < sv.n, cond)), "bool"), st)]
+    return [(ip.as_bool_val(ip.truth(v, st)), st)]
+
+
+@model("np.all")
+def m_np_all(ip, args, kw, st, node):
+    sv = ip.as_seq(args[0], st)
+    j = z3.Int("j!all")
+    el = z3.Select(sv.arr, j)
+    cond = el if sv.ety == "bool" else el != 0
+    return [(Sym(z3.ForAll([j], z3.Implies(z3.And(0 <= j, j < sv.n), cond)), "bool"), st)]
+
+
+@model("np.abs")
+def m_np_abs(ip, args, kw, st, node):
+    v = args[0]
+    if isinstance(v, (SeqV, ListLoc)):
+        return [(_elementwise(ip, v, st, lambda x: z3.If(x >= 0, x, -x)), st)]
+    return m_abs(ip, args, kw, st, node)
+
+
+def _round(ip, args, kw, st, node):
+    v = args[0]
+    dec = kw.get("decimals", args[1] if len(args) > 1 else 0)
+    if dec != 6:
+        raise OutOfSubset("np.round with decimals != 6", node)
+    if isinstance(v, (SeqV, ListLoc)):
+        return [(_elementwise(ip, v, st, lambda x: ROUND6(x)), st)]
+    t, k = _num(ip, v, st, node)
+    return [(Sym(ROUND6(to_real(t)), "real"), st)]
+
+
+MODELS["np.round"] = _round
+MODELS["pm.round"] = _round
+
+
+@model("np.average")
+def m_np_average(ip, args, kw, st, node):
+    sv = ip.as_seq(args[0], st)
+    return [(Sym(AVG(sv.arr, sv.n), "real"), st)]
+
+
+@model("np.sum")
+def m_np_sum(ip, args, kw, st, node):
+    sv = ip.as_seq(args[0], st)
+    arr = sv.arr
+    return [(Sym(SUM(arr, sv.n), "real"), st)]
+
+
+@model("np.min")
+def m_np_min(ip, args, kw, st, node):
+    return _minmax(ip, [StarArg(args[0])], kw, st, node, False)
+
+
+@model("np.max")
+def m_np_max(ip, args, kw, st, node):
+    return _minmax(ip, [StarArg(args[0])], kw, st, node, True)
+
+
+@model("<builtin>.as_array")
+def m_as_array(ip, args, kw, st, node):
+    return [(args[0], st)]
+
+
+@model("<builtin>.copy")
+def m_copy(ip, args, kw, st, node):
+    return [(args[0], st)]
+
+
+@model("super")
+def m_super(ip, args, kw, st, node):
+    return [(SuperProxy(st.env["self"], ip.cls_ctx), st)]
+
+
+class SuperProxy:
+    def __init__(self, selfv, cls):
+        self.selfv, self.cls = selfv, cls
